@@ -77,6 +77,16 @@ Theorem C16_bufio_first_plausible : forall size s i,
 Proof. exact sync_bufio_found. Qed.
 Print Assumptions C16_bufio_first_plausible.
 
+(* ... so that the next read returns the packet: io.ReadFull of 188 bytes through bufio.Reader.Read
+   (Model/Bufio.v `read`, incl. its large-read bypass and single-read refill) delivers exactly the
+   188 bytes starting at the reported offset *)
+Theorem C16_bufio_next_read : forall size s i,
+  nonempty_reads (PacketWriter.Script s) -> is_bytes (script_data s) -> first_plausible (script_data s) i ->
+  exists b' e b'', Bufio.sync_raw size s = Ok (N.of_nat i, None, b') /\
+                   Bufio.read_full 188 b' = Ok (firstn 188 (skipn i (script_data s)), e, b'').
+Proof. exact sync_bufio_next_read. Qed.
+Print Assumptions C16_bufio_next_read.
+
 (* not found: sync-not-found when the script ends with io.EOF, the script's own error otherwise *)
 Theorem C16_bufio_not_found : forall size s,
   nonempty_reads (PacketWriter.Script s) -> is_bytes (script_data s) -> none_plausible (script_data s) ->
